@@ -309,9 +309,19 @@ def check(case):
                 P.off(kind, holder[kind])
             holder[kind] = cb2
             P.on(kind, cb2)
+    class HostObject(object):
+        # listeners are bound methods of host objects: every attribute access yields a new method object that is equal to, but not the same as, the one subscribed
+        def __init__(self, fn):
+            self.fn = fn
+
+        def handle(self, *a):
+            return self.fn(*a)
+    hosts = []
     for kind in KINDS:
         for idx, tpl in enumerate(L[kind]):
-            P.on(kind, mk(kind, idx, tpl))
+            h = HostObject(mk(kind, idx, tpl))
+            hosts.append((kind, h))
+            P.on(kind, h.handle)
     text = gf.render(tree)
     r = P.parse(text)
     d = '%s with listeners %r: ' % (text, L)
@@ -351,8 +361,16 @@ def check(case):
     if not same_value(rec_calls, want_rec):
         raise Violation(d + 'REC received %r, expected %r' % (rec_calls, want_rec), enc(rec_calls), enc(want_rec))
     # second phase: every listener unsubscribed, the same formula once more on the same parser: nobody is called, cells and ranges are blank
-    for kind in KINDS:
-        P.off(kind)
+    if len(text) % 2:
+        for kind in KINDS:
+            P.off(kind)
+    else:
+        # ... one by one, the way a host detaches its handlers: by naming the method again
+        for kind, h in hosts:
+            P.off(kind, h.handle)
+        for kind in KINDS:
+            if case.get('transient', {}).get(kind, 'none') != 'none':
+                P.off(kind)
     none = dict((k, []) for k in KINDS)
     try:
         want_events2, want2 = expected(tree, none)
